@@ -1608,9 +1608,7 @@ func c05ReachF(fromB *ssa.BasicBlock, fromIdx int, fromPred *ssa.BasicBlock, to 
 				continue
 			}
 			nf := f
-			if s.Dominates(b) {
-				nf = c05NewFacts() // back edge: definitions are re-executed
-			} else if ifi != nil && b.Succs[0] != b.Succs[1] {
+			if ifi != nil && b.Succs[0] != b.Succs[1] {
 				subj, kind, pol := c05CondAtom(ifi.Cond)
 				want := pol
 				if si == 1 {
@@ -1644,6 +1642,9 @@ func c05ReachF(fromB *ssa.BasicBlock, fromIdx int, fromPred *ssa.BasicBlock, to 
 				} else {
 					nf.isTrue[subj], nf.isTrue[res] = want, want
 				}
+			}
+			if s.Dominates(b) {
+				nf = c05NewFacts() // back edge: definitions are re-executed
 			}
 			k := key{s, b, nf.sig()}
 			if seen[k] {
